@@ -5,7 +5,13 @@ D2 the master resolves each pending future exactly once with a failure path whos
    marker agrees with what the worker writes,
 D3 register-before-publish in enqueue,
 D4 correlation keys / channel templates agree between master and worker, and the
-   per-job values come from this job's message.
+   per-job values come from this job's message,
+D5 the transport's hand-over rules (C14) re-applied,
+D6 the scan the master/worker message loops drive cannot be killed by a concurrent publisher.
+
+All function bodies are analysed in their normal form (sa/normal.py: private helpers inlined,
+named sub-expressions substituted), and the constructs are found by role (what they read /
+write / call), never by the spelling of a local.
 """
 from __future__ import annotations
 
@@ -25,15 +31,73 @@ from ..engine import (
     calls_in,
     dotted_name,
     kwarg,
+    mutation_sites,
     norm,
     qualname_of,
     stmt_of,
     walk_no_nested,
 )
+from ..normal import nfunc
 from ..report import Report
 
 W = "semantiva/execution/job_queue/worker.py"
 Q = "semantiva/execution/job_queue/queue_orchestrator.py"
+T = "semantiva/execution/transport/in_memory.py"
+LOG_METHODS = {"debug", "info", "warning", "warn", "error", "exception", "critical", "log"}
+SNAPSHOT_FUNCS = {"list", "tuple", "sorted", "dict", "set", "frozenset"}
+DICT_CTORS = {"dict", "defaultdict", "OrderedDict"}
+
+
+def _deref(fn: Optional[ast.AST], e: Optional[ast.AST]) -> Optional[ast.AST]:
+    """The expression a local stands for: a name bound exactly once in *fn* (plain assignment) is replaced
+    by its right-hand side; anything else is returned unchanged."""
+    for _ in range(3):
+        if fn is None or not isinstance(e, ast.Name):
+            return e
+        stores = [n for n in walk_no_nested(fn) if isinstance(n, ast.Name) and n.id == e.id and isinstance(n.ctx, (ast.Store, ast.Del))]
+        vals = assigned_value(fn, e.id)
+        if len(stores) != 1 or len(vals) != 1:
+            return e
+        if not isinstance(vals[0], (ast.Constant, ast.JoinedStr, ast.Name)) and mutation_sites(fn, {e.id}):
+            return e  # the object is changed after it was built: the literal is not its final value
+        e = vals[0]
+    return e
+
+
+def logger_receivers(repo: Repo, mod, fn: ast.AST) -> Set[str]:
+    """Names that denote a logger inside *fn*, by role: a parameter / local annotated with a Logger type, or a
+    local all of whose values are built (or / if-else) from such names and calls of functions returning a Logger."""
+    out: Set[str] = set()
+    a = fn.args
+    for p in a.posonlyargs + a.args + a.kwonlyargs:
+        if p.annotation is not None and "Logger" in ast.unparse(p.annotation):
+            out.add(p.arg)
+
+    def loggerish(e: ast.AST) -> bool:
+        if isinstance(e, ast.Name):
+            return e.id in out
+        if isinstance(e, ast.BoolOp):
+            return all(loggerish(v) for v in e.values)
+        if isinstance(e, ast.IfExp):
+            return loggerish(e.body) and loggerish(e.orelse)
+        if isinstance(e, ast.Call):
+            for _m, t in repo.resolve_call(mod, e):
+                if isinstance(t, FuncNode) and t.returns is not None and "Logger" in ast.unparse(t.returns):
+                    return True
+            return (call_name(e) or "").split(".")[-1] in ("getLogger", "Logger")
+        return False
+
+    for _ in range(3):
+        for n in walk_no_nested(fn):
+            if isinstance(n, ast.AnnAssign) and isinstance(n.target, ast.Name) and "Logger" in ast.unparse(n.annotation):
+                out.add(n.target.id)
+        stored = {n.id for n in walk_no_nested(fn) if isinstance(n, ast.Name) and isinstance(n.ctx, ast.Store)}
+        for nm in stored - out:
+            vals = assigned_value(fn, nm)
+            n_st = sum(1 for n in walk_no_nested(fn) if isinstance(n, ast.Name) and n.id == nm and isinstance(n.ctx, ast.Store))
+            if vals and len(vals) == n_st and all(loggerish(v) for v in vals):
+                out.add(nm)
+    return out
 
 
 def fstring_template(e: Optional[ast.AST]) -> Optional[Tuple[str, List[str]]]:
@@ -53,10 +117,17 @@ def fstring_template(e: Optional[ast.AST]) -> Optional[Tuple[str, List[str]]]:
     return None
 
 
-def is_status_publish(call: ast.Call, job_var: Optional[str] = None) -> bool:
+def channel_template(call: ast.Call, fn: Optional[ast.AST] = None) -> Optional[Tuple[str, List[str]]]:
+    """Template of the channel argument of a publish call (a local naming the f-string is looked through)."""
+    if not call.args:
+        return None
+    return fstring_template(_deref(fn, call.args[0]))
+
+
+def is_status_publish(call: ast.Call, job_var: Optional[str] = None, fn: Optional[ast.AST] = None) -> bool:
     if call_attr(call) != "publish" or not call.args:
         return False
-    t = fstring_template(call.args[0])
+    t = channel_template(call, fn)
     if t is None:
         return False
     tmpl, names = t
@@ -67,31 +138,36 @@ def is_status_publish(call: ast.Call, job_var: Optional[str] = None) -> bool:
 
 def helper_always_publishes(repo: Repo, mod, call: ast.Call) -> Optional[Tuple[ast.FunctionDef, int]]:
     """If *call* resolves to a repo function all of whose normally-returning paths publish a
-    status whose job id is one of its parameters, return (function, index of that parameter)."""
+    status whose job id is one of its parameters, return (function, index of that parameter).
+    (Only needed for helpers the normaliser does not inline, e.g. public ones.)"""
     targets = repo.resolve_call(mod, call)
     if len(targets) != 1:
         return None
     tm, fn = targets[0]
     if not isinstance(fn, FuncNode):
         return None
+    try:
+        fn = nfunc(repo, tm.rel, qualname_of(fn), copyprop="all")
+    except Exception:
+        pass
     params = [a.arg for a in fn.args.args]
-    pubs = [c for c in calls_in(fn) if is_status_publish(c)]
+    pubs = [c for c in calls_in(fn) if is_status_publish(c, fn=fn)]
     if not pubs:
         return None
-    t = fstring_template(pubs[0].args[0])
+    t = channel_template(pubs[0], fn)
     assert t is not None
     jp = t[1][0]
-    if jp not in params:
+    if jp not in params or any(isinstance(n, ast.Name) and n.id == jp and isinstance(n.ctx, ast.Store) for n in walk_no_nested(fn)):
         return None
     g = CFG(fn)
-    bad = g.must_pass([g.entry], [g.ret_exit], lambda n: n.ast is not None and n.kind == "stmt" and any(is_status_publish(c, jp) for c in calls_in(n.ast)))
+    bad = g.must_pass([g.entry], [g.ret_exit], lambda n: n.ast is not None and n.kind == "stmt" and any(is_status_publish(c, jp, fn) for c in calls_in(n.ast)))
     if bad:
         return None
     return fn, params.index(jp)
 
 
-def metadata_keys(call: ast.Call) -> Optional[Dict[str, ast.AST]]:
-    md = kwarg(call, "metadata")
+def metadata_keys(call: ast.Call, fn: Optional[ast.AST] = None) -> Optional[Dict[str, ast.AST]]:
+    md = _deref(fn, kwarg(call, "metadata"))
     if md is None:
         return {}
     if isinstance(md, ast.Dict) and all(isinstance(k, ast.Constant) for k in md.keys):
@@ -99,10 +175,109 @@ def metadata_keys(call: ast.Call) -> Optional[Dict[str, ast.AST]]:
     return None
 
 
+def _flag_names(fn: ast.AST) -> Set[str]:
+    """Locals of *fn* that only ever hold the constants True / False (status flags)."""
+    params = {a.arg for a in fn.args.posonlyargs + fn.args.args + fn.args.kwonlyargs}
+    stores: Dict[str, int] = {}
+    for n in walk_no_nested(fn):
+        if isinstance(n, ast.Name) and isinstance(n.ctx, (ast.Store, ast.Del)):
+            stores[n.id] = stores.get(n.id, 0) + 1
+        elif isinstance(n, ast.ExceptHandler) and n.name:
+            stores[n.name] = stores.get(n.name, 0) + 99
+    out = set()
+    for nm, cnt in stores.items():
+        vals = assigned_value(fn, nm)
+        if nm not in params and len(vals) == cnt and all(isinstance(v, ast.Constant) and isinstance(v.value, bool) for v in vals):
+            single = [n for n in walk_no_nested(fn) if isinstance(n, ast.Assign) and any(isinstance(t, ast.Name) and t.id == nm for t in n.targets)]
+            if all(len(n.targets) == 1 for n in single):
+                out.add(nm)
+    return out
+
+
+def _eval_flags(test: ast.AST, env: Dict[str, Optional[bool]]) -> Optional[bool]:
+    """Three-valued value of a branch test built from status flags, not/and/or; None = not known."""
+    if isinstance(test, ast.Name) and test.id in env:
+        return env[test.id]
+    if isinstance(test, ast.Constant) and isinstance(test.value, bool):
+        return test.value
+    if isinstance(test, ast.UnaryOp) and isinstance(test.op, ast.Not):
+        v = _eval_flags(test.operand, env)
+        return None if v is None else not v
+    if isinstance(test, ast.BoolOp):
+        vals = [_eval_flags(v, env) for v in test.values]
+        if isinstance(test.op, ast.And):
+            return False if any(v is False for v in vals) else (True if all(v is True for v in vals) else None)
+        return True if any(v is True for v in vals) else (False if all(v is False for v in vals) else None)
+    if isinstance(test, ast.Compare) and len(test.ops) == 1 and isinstance(test.ops[0], (ast.Is, ast.IsNot, ast.Eq, ast.NotEq)):
+        l, r = _eval_flags(test.left, env), _eval_flags(test.comparators[0], env)
+        if l is None or r is None or not (isinstance(test.left, ast.Constant) or isinstance(test.comparators[0], ast.Constant)):
+            return None
+        return (l == r) if isinstance(test.ops[0], (ast.Is, ast.Eq)) else (l != r)
+    return None
+
+
+def reach_with_flags(g: CFG, starts: List[int], blocked: Set[int], flags: Set[str], skip_labels: Set[str]):
+    """Reachability that keeps the value of constant-only boolean locals along each path, so that a branch on
+    such a flag is followed only in the direction the path's own assignments allow (no infeasible paths
+    through `done = True ... if not done:`).  Returns {node: (path as list of node ids)} for the first visit."""
+    order = sorted(flags)
+    init = tuple(None for _ in order)
+    seen: Dict[Tuple[int, tuple], Optional[Tuple[Tuple[int, tuple], str]]] = {(s, init): None for s in starts}
+    todo = [(s, init) for s in starts]
+    first: Dict[int, Tuple[int, tuple]] = {s: (s, init) for s in starts}
+    while todo:
+        state = todo.pop(0)
+        nid, envt = state
+        node = g.nodes[nid]
+        env = dict(zip(order, envt))
+        allowed: Optional[str] = None
+        if node.kind in ("if", "while") and node.part is not None and order:
+            v = _eval_flags(node.part, env)
+            if v is not None:
+                allowed = "T" if v else "F"
+        new_env = envt
+        a = node.ast
+        if node.kind == "stmt" and isinstance(a, ast.Assign) and len(a.targets) == 1 and isinstance(a.targets[0], ast.Name) and a.targets[0].id in flags and isinstance(a.value, ast.Constant):
+            e2 = dict(env)
+            e2[a.targets[0].id] = bool(a.value.value)
+            new_env = tuple(e2[k] for k in order)
+        for t, lab in g.succ[nid]:
+            if lab in skip_labels:
+                continue
+            if allowed is not None and lab in ("T", "F") and lab != allowed:
+                continue
+            if t in blocked:
+                continue
+            nxt = (t, new_env if lab not in (EXC, BASE) else envt)
+            if nxt in seen:
+                continue
+            seen[nxt] = (state, lab)
+            first.setdefault(t, nxt)
+            todo.append(nxt)
+
+    def path_to(target: int) -> List[str]:
+        out: List[str] = []
+        cur: Optional[Tuple[int, tuple]] = first.get(target)
+        while cur is not None and len(out) < 10000:
+            prev = seen.get(cur)
+            node = g.nodes[cur[0]]
+            out.append(f"L{node.line}: {node.text()}" + (f" <-{prev[1]}-" if prev else ""))
+            cur = prev[0] if prev else None
+        return list(reversed(out))
+
+    return first, path_to
+
+
 def run(repo: Repo, R: Report) -> None:
     wmod = repo.module(W)
     qmod = repo.module(Q)
-    wl = repo.func(W, "worker_loop")
+    repo.func(W, "worker_loop")  # anchor
+    wl = nfunc(repo, W, "worker_loop", copyprop="all")
+    # every function of the worker module in normal form (status publishes are looked for in all of them)
+    wfuncs: List[ast.AST] = []
+    for qn, node in wmod.defs.items():
+        if isinstance(node, FuncNode):
+            wfuncs.append(wl if qn == "worker_loop" else nfunc(repo, W, qn, copyprop="all"))
     R.assume(
         "logger calls, dict.get on message metadata, isinstance/all and the statements of the worker's failure handler up to its publish do not raise",
         "exactly-once hand-over of each message is the in-memory transport's contract (property C14)",
@@ -134,9 +309,9 @@ def run(repo: Repo, R: Report) -> None:
         raise AnalysisError("worker_loop: job id extraction from msg.metadata not found")
     redefs = [n for n in ast.walk(loop) if isinstance(n, ast.Name) and n.id == job_var and isinstance(n.ctx, ast.Store)]
     r_corr = R.rule("C15-D4-correlation", "job id, channel templates, metadata/context keys and per-job values agree hop by hop between enqueue, run_forever and worker_loop, each a single definition taken from this job's message", 8)
-    R.check(len(redefs) == 1, r_corr, W, "worker_loop", f"{job_var} = {msg}.metadata.get({job_key!r})", "job id variable is redefined inside the job body (status could be published for another job)", loop.lineno)
+    R.check(len(redefs) == 1, r_corr, W, "worker_loop", f"job id = {msg}.metadata.get({job_key!r})", "job id variable is redefined inside the job body (status could be published for another job)", loop.lineno)
 
-    logger_names = {"worker_logger", "logger"}
+    loggers = logger_receivers(repo, wmod, wl)
 
     handler_stmts = {id(x) for h in ast.walk(loop) if isinstance(h, ast.ExceptHandler) for st in h.body for x in ast.walk(st)}
 
@@ -148,8 +323,7 @@ def run(repo: Repo, R: Report) -> None:
                 return {EXC}
             if isinstance(n, ast.Call):
                 d = call_name(n) or ""
-                head = d.split(".")[0]
-                if head in logger_names:
+                if isinstance(n.func, ast.Attribute) and n.func.attr in LOG_METHODS and dotted_name(n.func.value) in loggers:
                     continue
                 if d in ("isinstance", "all", "any", "str", "type", "bool", "len") or d == f"{msg}.metadata.get":
                     continue
@@ -162,7 +336,7 @@ def run(repo: Repo, R: Report) -> None:
         if n.ast is None or n.kind != "stmt":
             return False
         for c in calls_in(n.ast):
-            if is_status_publish(c, job_var):
+            if is_status_publish(c, job_var, wl):
                 return True
             h = helper_always_publishes(repo, wmod, c)
             if h is not None:
@@ -175,17 +349,17 @@ def run(repo: Repo, R: Report) -> None:
     heads = g.nodes_for(loop)
     if not heads:
         raise AnalysisError("worker_loop: loop header not in CFG")
-    n_pub_nodes = sum(1 for n in g.nodes if publishes(n))
+    pub_nodes = {n.id for n in g.nodes if publishes(n)}
+    n_pub_nodes = len(pub_nodes)
+    flags = _flag_names(wl)
     total_bad = 0
     for h in heads:
         starts = [t for t, lab in g.succ[h] if lab == "T"]
-        blocked = {n.id for n in g.nodes if publishes(n)}
-        seen = g.reach(starts, blocked=blocked, skip_labels={BASE})
+        seen, path_to = reach_with_flags(g, starts, pub_nodes, flags, {BASE})
         for target, label in ((h, "next message"), (g.ret_exit, "worker returns"), (g.exc_exit, "exception escapes the worker")):
             if target in seen:
                 total_bad += 1
-                path = g.path_to(seen, target)
-                last = next((p for p in reversed(path[:-1]) if "<" not in p[:3]), path[-1])
+                path = path_to(target)
                 R.violation(r_pub, W, "worker_loop", f"job body -> {label} without status publish via `{_last_stmt(path)}`",
                             "a picked-up job can leave its iteration without any jobs.<id>.status message: the caller's Future never completes", loop.lineno, path)
     if total_bad == 0:
@@ -194,7 +368,8 @@ def run(repo: Repo, R: Report) -> None:
         raise AnalysisError("worker_loop: no status publish recognised")
 
     # ------------------------------------------------------------------ D2
-    rf = repo.func(Q, "QueueSemantivaOrchestrator.run_forever")
+    repo.func(Q, "QueueSemantivaOrchestrator.run_forever")  # anchor
+    rf = nfunc(repo, Q, "QueueSemantivaOrchestrator.run_forever", copyprop="all")
     r_res = R.rule("C15-D2-resolve-once", "for a status message of a pending job the master completes the future exactly once (set_result xor set_exception) under the pending-membership guard and then removes the entry; a failure path exists and its marker test is true for every value a worker failure can write", 5)
     gq = CFG(rf, may_raise=lambda part: set())
     pend = "self.pending_futures"
@@ -258,19 +433,28 @@ def run(repo: Repo, R: Report) -> None:
         test_kind = None
         for n in gq.nodes:
             if n.kind == "if" and n.part is not None and any(gq.dominated_by_edge(e.id, n.id, "T") for e in exc_nodes) and n not in guards:
-                names = {x.id for x in ast.walk(n.part) if isinstance(x, ast.Name)}
-                for nm in names:
-                    for rhs in assigned_value(rf, nm):
-                        for c in ast.walk(rhs):
-                            if isinstance(c, ast.Call) and call_attr(c) == "get" and c.args and isinstance(c.args[0], ast.Constant) and "metadata" in ast.unparse(c.func):
-                                marker_key, marker_var = c.args[0].value, nm
-                            if isinstance(c, ast.Subscript) and "metadata" in ast.unparse(c.value) and isinstance(c.slice, ast.Constant):
-                                marker_key, marker_var = c.slice.value, nm
+                def marker_read(e: ast.AST):
+                    for c in ast.walk(e):
+                        if isinstance(c, ast.Call) and call_attr(c) == "get" and c.args and isinstance(c.args[0], ast.Constant) and "metadata" in ast.unparse(c.func):
+                            return c.args[0].value, c
+                        if isinstance(c, ast.Subscript) and "metadata" in ast.unparse(c.value) and isinstance(c.slice, ast.Constant):
+                            return c.slice.value, c
+                    return None
+
+                hit = marker_read(n.part)
+                if hit is not None:
+                    marker_key, marker_var = hit[0], ast.unparse(hit[1])
+                else:
+                    for nm in sorted({x.id for x in ast.walk(n.part) if isinstance(x, ast.Name)}):
+                        for rhs in assigned_value(rf, nm):
+                            hit = marker_read(rhs)
+                            if hit is not None:
+                                marker_key, marker_var = hit[0], nm
                 if marker_var:
                     t = n.part
-                    if isinstance(t, ast.Compare) and len(t.ops) == 1 and isinstance(t.ops[0], ast.IsNot) and isinstance(t.comparators[0], ast.Constant) and t.comparators[0].value is None and dotted_name(t.left) == marker_var:
+                    if isinstance(t, ast.Compare) and len(t.ops) == 1 and isinstance(t.ops[0], ast.IsNot) and isinstance(t.comparators[0], ast.Constant) and t.comparators[0].value is None and ast.unparse(t.left) == marker_var:
                         test_kind = "presence"
-                    elif isinstance(t, ast.Name) and t.id == marker_var:
+                    elif ast.unparse(t) == marker_var:
                         test_kind = "truthiness"
                     elif isinstance(t, ast.Compare) and len(t.ops) == 1 and isinstance(t.ops[0], (ast.Eq, ast.In)):
                         test_kind = "equality"
@@ -284,10 +468,10 @@ def run(repo: Repo, R: Report) -> None:
             fail_values: List[Tuple[ast.AST, ast.AST, str]] = []
             succ_has_marker = False
             n_fail = n_succ = 0
-            for fn in [n for n in wmod.defs.values() if isinstance(n, FuncNode)]:
+            for fn in wfuncs:
                 for c in calls_in(fn):
-                    if is_status_publish(c):
-                        mk = metadata_keys(c)
+                    if is_status_publish(c, fn=fn):
+                        mk = metadata_keys(c, fn)
                         if mk is None:
                             raise AnalysisError(f"{W}: status publish with non-literal metadata")
                         if marker_key in mk:
@@ -299,7 +483,7 @@ def run(repo: Repo, R: Report) -> None:
             R.check(n_succ > 0, r_res, W, "worker_loop", f"success status omits metadata[{marker_key!r}]", "every status carries the failure marker: successful jobs complete exceptionally", 0)
             # polarity: can a written failure value make the master's test false?
             for fn, val, qn in fail_values:
-                truthy = _provably_truthy(repo, wmod, fn, val)
+                truthy = _provably_truthy(repo, wmod, wfuncs, fn, val)
                 not_none = truthy or _provably_not_none(fn, val)
                 if test_kind == "presence":
                     ok = not_none
@@ -320,7 +504,8 @@ def run(repo: Repo, R: Report) -> None:
                 R.check(ok, r_corr, Q, "QueueSemantivaOrchestrator.run_forever", norm(c)[:90], "the future's result is not (data, context) of the status message that was matched", c.lineno)
 
     # ------------------------------------------------------------------ D3
-    enq = repo.func(Q, "QueueSemantivaOrchestrator.enqueue")
+    repo.func(Q, "QueueSemantivaOrchestrator.enqueue")  # anchor
+    enq = nfunc(repo, Q, "QueueSemantivaOrchestrator.enqueue", copyprop="all")
     r_ord = R.rule("C15-D3-register-before-publish", "the pending future is registered before the job is put on the queue", 1)
     ge = CFG(enq, may_raise=lambda part: set())
     store = [n for n in ge.nodes if n.ast is not None and isinstance(n.ast, ast.Assign) and any(isinstance(t, ast.Subscript) and dotted_name(t.value) == pend for t in n.ast.targets)]
@@ -333,12 +518,12 @@ def run(repo: Repo, R: Report) -> None:
     # the key stored and the id put on the queue are the same variable
     skey = dotted_name(store[0].ast.targets[0].slice)
     put_call = next(c for c in calls_in(put[0].ast) if call_attr(c) == "put")
-    tup = put_call.args[0] if put_call.args else None
+    tup = _deref(enq, put_call.args[0]) if put_call.args else None
     first = dotted_name(tup.elts[0]) if isinstance(tup, ast.Tuple) and tup.elts else None
     R.check(skey is not None and skey == first, r_corr, Q, "QueueSemantivaOrchestrator.enqueue", norm(put_call)[:90], "the queued job id is not the key under which the future was registered", put_call.lineno)
     # stored value is the returned future
     sval = dotted_name(store[0].ast.value)
-    rets = [dotted_name(n.value) for n in walk_no_nested(enq) if isinstance(n, ast.Return) and n.value is not None]
+    rets = [dotted_name(n.value) for n in walk_no_nested(enq) if isinstance(n, ast.Return) and n.value is not None and not (isinstance(n.value, ast.Constant) and n.value.value is None)]
     R.check(sval is not None and all(r == sval for r in rets) and bool(rets), r_corr, Q, "QueueSemantivaOrchestrator.enqueue", f"return {sval}", "the returned Future is not the one registered as pending", enq.lineno)
 
     # ------------------------------------------------------------------ D4 (remaining hops)
@@ -350,43 +535,43 @@ def run(repo: Repo, R: Report) -> None:
     if unpack is None:
         raise AnalysisError("run_forever: unpacking of job_queue.get(...) not found")
     names = [e.id if isinstance(e, ast.Name) else None for e in unpack.targets[0].elts]
-    cfg_pubs = [c for c in calls_in(rf) if call_attr(c) == "publish" and c.args and (fstring_template(c.args[0]) or ("", []))[0].endswith(".cfg")]
+    cfg_pubs = [c for c in calls_in(rf) if call_attr(c) == "publish" and c.args and (channel_template(c, rf) or ("", []))[0].endswith(".cfg")]
     if len(cfg_pubs) != 1:
         raise AnalysisError("run_forever: exactly one jobs.<id>.cfg publish expected")
     cp = cfg_pubs[0]
-    tmpl, tnames = fstring_template(cp.args[0])  # type: ignore[misc]
+    tmpl, tnames = channel_template(cp, rf)  # type: ignore[misc]
     R.check(tnames == [names[0]], r_corr, Q, "QueueSemantivaOrchestrator.run_forever", norm(cp.args[0]), "cfg channel is not named after the dequeued job id", cp.lineno)
-    mk = metadata_keys(cp) or {}
+    mk = metadata_keys(cp, rf) or {}
     R.check(job_key in mk and dotted_name(mk[job_key]) == names[0], r_corr, Q, "QueueSemantivaOrchestrator.run_forever", f"metadata[{job_key!r}] = {names[0]}",
             f"the cfg message does not carry the dequeued job id under {job_key!r}, the key the worker reads", cp.lineno)
     R.check("pipeline" in mk and dotted_name(mk["pipeline"]) == names[1] and dotted_name(kwarg(cp, "data")) == names[2] and dotted_name(kwarg(cp, "context")) == names[3],
             r_corr, Q, "QueueSemantivaOrchestrator.run_forever", "cfg publish carries pipeline/data/context of the same dequeued tuple", "the cfg message mixes values of different jobs", cp.lineno)
     # worker subscription pattern matches the master's cfg template, and vice versa for status
-    wsubs = [c for c in calls_in(wl) if call_attr(c) == "subscribe" and c.args and isinstance(c.args[0], ast.Constant)]
-    msubs = [c for c in calls_in(rf) if call_attr(c) == "subscribe" and c.args and isinstance(c.args[0], ast.Constant)]
+    wsubs = [c for c in calls_in(wl) if call_attr(c) == "subscribe" and c.args and isinstance(_deref(wl, c.args[0]), ast.Constant)]
+    msubs = [c for c in calls_in(rf) if call_attr(c) == "subscribe" and c.args and isinstance(_deref(rf, c.args[0]), ast.Constant)]
     if not wsubs or not msubs:
         raise AnalysisError("subscribe patterns not found")
-    R.check(fnmatch(tmpl.replace("{}", "00000000-0000"), wsubs[0].args[0].value) and not fnmatch("jobs.0000.status", wsubs[0].args[0].value), r_corr, W, "worker_loop", norm(wsubs[0]),
+    R.check(fnmatch(tmpl.replace("{}", "00000000-0000"), _deref(wl, wsubs[0].args[0]).value) and not fnmatch("jobs.0000.status", _deref(wl, wsubs[0].args[0]).value), r_corr, W, "worker_loop", norm(wsubs[0]),
             "worker subscription pattern does not match exactly the master's cfg channel template", wsubs[0].lineno)
     status_templates = set()
-    for fn in [n for n in wmod.defs.values() if isinstance(n, FuncNode)]:
+    for fn in wfuncs:
         for c in calls_in(fn):
-            if is_status_publish(c):
-                status_templates.add(fstring_template(c.args[0])[0])  # type: ignore[index]
+            if is_status_publish(c, fn=fn):
+                status_templates.add(channel_template(c, fn)[0])  # type: ignore[index]
     for st_t in sorted(status_templates):
-        R.check(fnmatch(st_t.replace("{}", "00000000-0000"), msubs[0].args[0].value) and not fnmatch("jobs.0000.cfg", msubs[0].args[0].value), r_corr, Q, "QueueSemantivaOrchestrator.run_forever", norm(msubs[0]) + f" ~ {st_t}",
+        R.check(fnmatch(st_t.replace("{}", "00000000-0000"), _deref(rf, msubs[0].args[0]).value) and not fnmatch("jobs.0000.cfg", _deref(rf, msubs[0].args[0]).value), r_corr, Q, "QueueSemantivaOrchestrator.run_forever", norm(msubs[0]) + f" ~ {st_t}",
                 "master subscription pattern does not match the worker's status channel template", msubs[0].lineno)
     # context key written by worker (both outcomes) = key read by master
     read_keys = [c.args[0].value for c in calls_in(rf) if call_attr(c) == "get_value" and c.args and isinstance(c.args[0], ast.Constant)]
     ctx_key = read_keys[0] if read_keys else None
     if ctx_key is None:
         raise AnalysisError("run_forever: job id lookup in the status context not found")
-    for fn in [n for n in wmod.defs.values() if isinstance(n, FuncNode)]:
+    for fn in wfuncs:
         for c in calls_in(fn):
-            if is_status_publish(c):
+            if is_status_publish(c, fn=fn):
                 ctx = kwarg(c, "context") or (c.args[2] if len(c.args) > 2 else None)
                 cname = dotted_name(ctx) if ctx is not None else None
-                t = fstring_template(c.args[0])
+                t = channel_template(c, fn)
                 jv = t[1][0] if t else None
                 writes = [w for w in calls_in(fn) if call_attr(w) == "set_value" and isinstance(w.func, ast.Attribute) and dotted_name(w.func.value) == cname and w.args and isinstance(w.args[0], ast.Constant) and w.args[0].value == ctx_key and len(w.args) > 1 and dotted_name(w.args[1]) == jv]
                 R.check(bool(writes), r_corr, W, qualname_of(fn), norm(c)[:70] + f" [context[{ctx_key!r}]]",
@@ -436,7 +621,7 @@ def _last_stmt(path: List[str]) -> str:
     return "?"
 
 
-def _provably_truthy(repo: Repo, mod, fn: ast.AST, val: ast.AST, depth: int = 0) -> bool:
+def _provably_truthy(repo: Repo, mod, funcs: List[ast.AST], fn: ast.AST, val: ast.AST, depth: int = 0) -> bool:
     """Value written by a failure publish is truthy for every failure (non-empty constant, exception object)."""
     if isinstance(val, ast.Constant):
         return bool(val.value)
